@@ -656,6 +656,21 @@ pub fn c11(tier: &str, seed: u64) -> Vec<Case> {
         if r.chance(1, 4) { b[11] = 1; b.extend_from_slice(&[0, 0, 41, 2, 0, r.next() as u8, r.next() as u8, 0, 0, 0, 0]); }
         inputs.push((b, "header-word".to_string()));
     }
+    // every extended response code: the upper eight bits in the OPT TTL octet this library reads them from (and, the same
+    // sweep again, in the octet RFC 6891 puts them), under a few header nibbles - codes the library has a name for, codes it
+    // has none for, and whatever name a later version gives them: what was read survives being written out again
+    for ext in 0..=255u32 {
+        for (k, nib) in [0u8, 1, 7, 15].iter().enumerate() {
+            for layout in 0..2 {
+                let mut b = vec![0u8, 7, 0x80, *nib, 0, 1, 0, 0, 0, 0, 0, 1, 1, b'a', 0, 0, 1, 0, 1];
+                let ttl = if layout == 0 { [0u8, 0, if k % 2 == 0 { 0 } else { 0x80 }, ext as u8] } else { [ext as u8, 0, 0, 0] };
+                b.extend_from_slice(&[0, 0, 41, 4, 208]);
+                b.extend_from_slice(&ttl);
+                b.extend_from_slice(&[0, 0]);
+                inputs.push((b, "extended-rcode".to_string()));
+            }
+        }
+    }
     // received messages with names of up to 127 labels and owner names that each extend the previous one (read back
     // from the compressing writer the last one follows up to 126 pointers), given uncompressed and compressed
     for (p, tag) in packets(tier, seed ^ 0x3333, true) {
